@@ -341,6 +341,49 @@ def run(ctx):
             o = [normfld(x) for x in ops]
             tyimgs = [normfld(("fld", tyimg, 0, None, "u32"))]
             good = (o[0] == idimg and o[1] in tyimgs) or (o[1] == idimg and o[0] in tyimgs)
+        if not good and rt is not None and rt[0] == "call" and len(rt[2]) == 2:
+            # delegation to the mirrored impl with the operands swapped (that impl is checked by this same rule)
+            mirror = need(ctx, "mirror of " + nm, impl_trait_ref="core::cmp::PartialEq<%s>" % lhs, impl_self=rhs, name="eq")
+            if mirror and rt[1] == mirror["key"] and tuple(s(x) for x in rt[2]) in ((("arg", 2, "&" + rhs), ("arg", 1, "&" + lhs)), (("arg", 2), ("arg", 1))):
+                good = True
+                how = "delegates to `%s == %s` with the operands swapped" % (rhs.split("::")[-1], lhs.split("::")[-1])
+        if not good:
+            # the numeric image written out in place (a `match` on the type, or an inlined helper): the same table as
+            # MemoryAreaTypeId::from(type), compared with id.0 in every arm
+            try:
+                adt_ = F.adts.get(MT)
+                inv_ = {v: k for k, v in S.MEMORY_AREA_TYPES.items()}
+                iid = 1 if lhs == MID else 2
+                ity = 2 if lhs == MID else 1
+                it_, pcs_, _tb = CL.classify(F, e, domain=((0, len(adt_["variants"]) - 1),))
+                subject = s(it_[1]) if it_[0] == "discr" else None
+                idimg = normfld(("fld", ("deref", ("arg", iid, "&" + MID)), 0, None, "u32"))
+                okp = subject is not None and normfld(subject) == normfld(("deref", ("arg", ity, "&" + MT)))
+                seen_ = set()
+                for (iv, val, bb) in pcs_:
+                    v_ = s(val)
+                    if not (v_[0] == "bin" and v_[1] == "Eq"):
+                        okp = False
+                        break
+                    sides = [s(v_[2]), s(v_[3])]
+                    other = [x for x in sides if normfld(x) != idimg]
+                    if len(other) != 1:
+                        okp = False
+                        break
+                    o_ = other[0]
+                    for (lo, hi) in iv:
+                        for idx in range(lo, hi + 1):
+                            vn = adt_["variants"][idx]["name"]
+                            seen_.add(vn)
+                            if vn == "Custom":
+                                okp = okp and o_[0] == "fld" and o_[2] == 0 and o_[1][0] == "dc" and o_[1][2] == idx and normfld(s(o_[1][1])) == normfld(subject)
+                            else:
+                                okp = okp and o_ == ("c", inv_.get(vn))
+                if okp and len(seen_) == len(adt_["variants"]):
+                    good = True
+                    how = "per variant: id.0 == the variant's number (the table of MemoryAreaTypeId::from), Custom(v): id.0 == v"
+            except CL.Unrecognised as ex:
+                how = "%s; per-variant classification: %s" % (how, ex)
         ctx.check(good, "TERMS", "eq:" + nm, "`%s == %s` compares id.0 with MemoryAreaTypeId::from(type).0" %
                   (lhs.split("::")[-1], rhs.split("::")[-1]), site(e), how=how, why=how)
     # ------------------------------------------------------------ ELF section types
